@@ -136,6 +136,22 @@ def run_reeval_instance(mod, nodes, edges, mode, deadline=None, max_first=2000, 
             stats['capped'] = True
             break
         u2 = followup_universe(ex1, st)
+        if mode != 'ident':
+            # "nothing changed" under a comparison coarser than string equality: an Always job that runs again may report a
+            # textually different value that the comparison judges unaltered (a new timestamp on the same hash)
+            okd1 = st.dv.ok_dict()
+
+            def output_term(ex, s2, j, _k=uni.kind, _ok=okd1):
+                return ('o2', j) if (_k[j] == 'Always' and j in _ok) else ('o', j)
+
+            def output_assume(ex, s2, j, t, _k=uni.kind, _ok=okd1, _mode=mode):
+                if _k[j] != 'Always' or j not in _ok or t == _ok[j]:
+                    return []
+                if _mode == 'reld':
+                    return [('Rd', j + '\x02!!!', t, _ok[j])]
+                return [('R', t, _ok[j])]
+            u2.output_term = output_term
+            u2.output_assume = output_assume
         rm = ReevalMonitor()
         ex2 = X.Explorer(u2, [Mo.SafetyMonitor(), Mo.OracleMonitor(), rm], fail_actions=False, abort_actions=False)
         ex2.z = ex1.z           # share declarations / caches: same terms
